@@ -237,8 +237,7 @@ func (c *Client) handlePacket(pktx pkts.Packet) error {
 			pubcomp.CopyMessageID(pkt)
 			return c.send(pubcomp)
 		}
-		transaction.Pubrel(pkt)
-		return nil
+		return transaction.Pubrel(pkt)
 
 	// Client PUBLISH QoS 1 transaction.
 	case *pkts1.Puback:
